@@ -1,10 +1,10 @@
 #!/bin/bash
 # usage: tools/import_seeded.sh <Cxx> <variant> — confirms /tmp/seeded/<Cxx>/<variant>, runs the check, stores under seeded/
-ID="$1"; X="$2"; SRC=/tmp/seeded/$ID/$X
+ID="$1"; X="$2"; ROOT="${3:-/tmp/seeded}"; DX="${4:-$X}"; SRC=$ROOT/$ID/$X
 cd "$(dirname "$0")/.."
 [ -f "$SRC/patch.diff" ] || exit 0
 OUT=$(tools/try_seeded.sh "$ID" "$SRC" 2>&1)
-DST=seeded/$ID-$X
+DST=seeded/$ID-$DX
 mkdir -p "$DST"
 cp "$SRC/patch.diff" "$DST/patch.diff"
 DEMO=$(ls "$SRC"/demo_test.go "$SRC"/demo/main.go 2>/dev/null | head -1)
@@ -18,7 +18,7 @@ m['origin']='written by an independent sub-agent from the property text only (no
 json.dump(m,open(sys.argv[2],'w'),indent=1)
 PY
 printf '%s' "$OUT" > /tmp/import_out.$$
-python3 - "$DST/meta.json" /tmp/import_out.$$ "$ID" "$X" <<'PY'
+python3 - "$DST/meta.json" /tmp/import_out.$$ "$ID" "$DX" <<'PY'
 import json,sys,re
 out=open(sys.argv[2],errors='replace').read()
 ID,X=sys.argv[3],sys.argv[4]
